@@ -123,29 +123,48 @@ def newArc (s : St) (e : Nat) : Nat × St :=
 
 /-! ### despawning one entity (all component drops) -/
 
-/-- `World::despawn(e)` for a live `e`: every component is dropped. -/
-def kill (s : St) (e : Nat) : St :=
-  let s : St := { s with alive := upd s.alive e false }
-  -- SystemCommandStorage: a present callback is dropped with the entity
-  let s : St := match s.storage e with
-    | some true => ({ s with storage := upd s.storage e none }).emit (.canary e)
-    | some false => { s with storage := upd s.storage e none }
-    | none => s
-  -- EntityReactors: handles are dropped
-  let s : St := match s.entReactors e with
-    | some l => dropHandles { s with entReactors := upd s.entReactors e none } (l.map (fun p => p.2))
-    | none => s
-  -- React<C>: removal events
+/-- The entity dies; a present `SystemCommandStorage` callback is dropped with it. -/
+def killStorage (s : St) (e : Nat) : St :=
+  { s with alive := upd s.alive e false, storage := upd s.storage e none }
+
+/-- Dropping `SystemCommandStorage` with a present callback drops the system state (canary). -/
+def killCanary (s : St) (e : Nat) : St :=
+  match s.storage e with
+  | some true => s.emit (.canary e)
+  | _ => s
+
+/-- `EntityReactors` is dropped: its handles are released. -/
+def killReactors (s : St) (e : Nat) : St :=
+  match s.entReactors e with
+  | some l => dropHandles { s with entReactors := upd s.entReactors e none } (l.map (fun p => p.2))
+  | none => s
+
+/-- `React<C>` components are dropped: one removal event per component type. -/
+def killComps (s : St) (e : Nat) : St :=
   let s : St := (s.comp e).foldl
     (fun (s : St) (p : Nat × Nat) => { s with removedBuf := upd s.removedBuf p.1 (s.removedBuf p.1 ++ [e]) }) s
-  let s : St := { s with comp := upd s.comp e [] }
-  -- DespawnTracker
-  let s : St := if s.dspTracker e then { s with dspTracker := upd s.dspTracker e false, dspChan := s.dspChan ++ [e] } else s
-  -- event data
-  let s : St := match s.data e with
-    | some x => let s : St := { s with data := upd s.data e none }
-                if x.taken then s else s.emit (.dropPayload x.pid)
-    | none => s
+  { s with comp := upd s.comp e [] }
+
+/-- `DespawnTracker::drop` sends the entity on the despawn channel. -/
+def killTracker (s : St) (e : Nat) : St :=
+  if s.dspTracker e then { s with dspTracker := upd s.dspTracker e false, dspChan := s.dspChan ++ [e] } else s
+
+/-- Event data stored on the entity is dropped (the payload, unless it was taken). -/
+def killData (s : St) (e : Nat) : St :=
+  match s.data e with
+  | some x =>
+    let s : St := { s with data := upd s.data e none }
+    if x.taken then s else s.emit (.dropPayload x.pid)
+  | none => s
+
+/-- `World::despawn(e)` for a live `e`: every component is dropped. -/
+def kill (s : St) (e : Nat) : St :=
+  let s := killCanary s e
+  let s := killStorage s e
+  let s := killReactors s e
+  let s := killComps s e
+  let s := killTracker s e
+  let s := killData s e
   { s with ewLocal := upd s.ewLocal e [] }
 
 /-- `world.despawn(e)`: no-op on a dead entity. -/
